@@ -3,6 +3,8 @@ import GenjaxModel.Proofs.DistSpec2
 import GenjaxModel.Proofs.DistSpec3
 import GenjaxModel.Proofs.DistSpec4
 import GenjaxModel.Proofs.DistSpec5
+import GenjaxModel.Proofs.DistExpr
+import GenjaxModel.Proofs.DistExprVec
 /-!
 # C13 — distributions: documented parameters, normalised density, matching sampler
 
@@ -302,5 +304,142 @@ theorem C13_dirichlet_param_beta (a b t : ℝ) (ht : 0 < t ∧ t < 1) :
 
 theorem C13_dirichlet_nonneg {k : ℕ} (α x : Fin k → ℝ) (hα : ∀ i, 0 < α i) (hx : ∀ i, 0 ≤ x i) :
     0 ≤ dirichletPdf α x := dirichletPdf_nonneg α x hα hx
+
+/-! ## Part 6: the executable spec table (Model/DistExpr.lean) denotes these densities
+
+`DistExpr.specTable` (Mathlib-free, printed by the driver command `(distspec)`) holds one closed
+expression term per distribution.  The theorems below say that the real-valued denotation
+(`DE.denote` / `DE.denoteV`, Proofs/DistExpr.lean) of the printed term IS the density whose
+normalisation is proved above — for all real parameter values and all points, no side conditions.
+The Python side (`distspec_eval.py`) evaluates the printed terms clause by clause like `denoteV`
+and compares them with `dist.logpdf`; so the chain is
+`genjax logpdf ≈ (numerically) printed term = (theorem) <name>Pdf`, `∫ <name>Pdf = 1` (theorem).
+Discrete points are embedded into ℝ: `k ↦ (k : ℝ)`, `b ↦ boolPt b` (`true ↦ 1`, `false ↦ 0`).
+Which term is printed under which name: `DistExpr.specLookup_table`. -/
+section SpecTable
+open DE DistExpr
+
+theorem C13_spec_bernoulli_denotes (l : ℝ) (b : Bool) :
+    spec_bernoulli.denote [l] (boolPt b) = bernoulliLogitsPmf l b := spec_bernoulli_denotes l b
+
+theorem C13_spec_flip_denotes (p : ℝ) (b : Bool) :
+    spec_flip.denote [p] (boolPt b) = flipPmf p b := spec_flip_denotes p b
+
+theorem C13_spec_beta_denotes (a b x : ℝ) : spec_beta.denote [a, b] x = betaPdf a b x :=
+  spec_beta_denotes a b x
+
+theorem C13_spec_geometric_denotes (p : ℝ) (k : ℕ) :
+    spec_geometric.denote [p] (k : ℝ) = geometricPmf p k := spec_geometric_denotes p k
+
+theorem C13_spec_normal_denotes (μ σ x : ℝ) : spec_normal.denote [μ, σ] x = normalPdf μ σ x :=
+  spec_normal_denotes μ σ x
+
+theorem C13_spec_uniform_denotes (a b x : ℝ) : spec_uniform.denote [a, b] x = uniformPdf a b x :=
+  spec_uniform_denotes a b x
+
+theorem C13_spec_exponential_denotes (r x : ℝ) :
+    spec_exponential.denote [r] x = exponentialPdf r x := spec_exponential_denotes r x
+
+theorem C13_spec_poisson_denotes (r : ℝ) (k : ℕ) :
+    spec_poisson.denote [r] (k : ℝ) = poissonPmf r k := spec_poisson_denotes r k
+
+/-- total_count is passed as the real number `(n : ℝ)`; beyond `k = n` the term is 0 like `C(n,k)` -/
+theorem C13_spec_binomial_denotes (n : ℕ) (p : ℝ) (k : ℕ) :
+    spec_binomial.denote [(n : ℝ), p] (k : ℝ) = binomialPmf n p k := spec_binomial_denotes n p k
+
+theorem C13_spec_gamma_denotes (a r x : ℝ) : spec_gamma.denote [a, r] x = gammaPdf a r x :=
+  spec_gamma_denotes a r x
+
+theorem C13_spec_log_normal_denotes (μ σ x : ℝ) :
+    spec_log_normal.denote [μ, σ] x = logNormalPdf μ σ x := spec_log_normal_denotes μ σ x
+
+theorem C13_spec_student_t_denotes (ν μ σ x : ℝ) :
+    spec_student_t.denote [ν, μ, σ] x = studentTPdf ν μ σ x := spec_student_t_denotes ν μ σ x
+
+theorem C13_spec_laplace_denotes (μ b x : ℝ) : spec_laplace.denote [μ, b] x = laplacePdf μ b x :=
+  spec_laplace_denotes μ b x
+
+theorem C13_spec_half_normal_denotes (σ x : ℝ) :
+    spec_half_normal.denote [σ] x = halfNormalPdf σ x := spec_half_normal_denotes σ x
+
+theorem C13_spec_inverse_gamma_denotes (a b x : ℝ) :
+    spec_inverse_gamma.denote [a, b] x = inverseGammaPdf a b x := spec_inverse_gamma_denotes a b x
+
+theorem C13_spec_weibull_denotes (k l x : ℝ) : spec_weibull.denote [k, l] x = weibullPdf k l x :=
+  spec_weibull_denotes k l x
+
+theorem C13_spec_cauchy_denotes (x₀ γ x : ℝ) : spec_cauchy.denote [x₀, γ] x = cauchyPdf x₀ γ x :=
+  spec_cauchy_denotes x₀ γ x
+
+theorem C13_spec_chi2_denotes (k x : ℝ) : spec_chi2.denote [k] x = chi2Pdf k x :=
+  spec_chi2_denotes k x
+
+theorem C13_spec_negative_binomial_denotes (r p : ℝ) (k : ℕ) :
+    spec_negative_binomial.denote [r, p] (k : ℝ) = negativeBinomialPmf r p k :=
+  spec_negative_binomial_denotes r p k
+
+theorem C13_spec_zipf_denotes (s : ℝ) (k : ℕ) : spec_zipf.denote [s] (k : ℝ) = zipfPmf s k :=
+  spec_zipf_denotes s k
+
+/-- categorical with 3 categories: parameters are the three logits, the point is the index -/
+theorem C13_spec_categorical_denotes (θ : Fin 3 → ℝ) (k : Fin 3) :
+    spec_categorical3.denote [θ 0, θ 1, θ 2] ((k : ℕ) : ℝ) = categoricalPmf θ k :=
+  spec_categorical3_denotes θ k
+
+/-- multinomial with 3 categories: parameters `[n, p₀, p₁, p₂]`, point `(k₀, k₁, k₂)` -/
+theorem C13_spec_multinomial_denotes (n : ℕ) (p : Fin 3 → ℝ) (k : Fin 3 → ℕ) :
+    spec_multinomial3.denoteV [(n : ℝ), p 0, p 1, p 2] [(k 0 : ℝ), (k 1 : ℝ), (k 2 : ℝ)] =
+      multinomialPmf n p k := spec_multinomial3_denotes n p k
+
+/-- dirichlet with 3 components -/
+theorem C13_spec_dirichlet_denotes (α x : Fin 3 → ℝ) :
+    spec_dirichlet3.denoteV [α 0, α 1, α 2] [x 0, x 1, x 2] = dirichletPdf α x :=
+  spec_dirichlet3_denotes α x
+
+/-- multivariate_normal in dimension 2: parameters `[μ₀, μ₁, S₀₀, S₀₁, S₁₀, S₁₁]` (row-major
+covariance), ANY 2×2 matrix `S` (for singular `S` both sides use `S⁻¹ = 0`, `0^(-1/2) = 0`) -/
+theorem C13_spec_multivariate_normal_denotes (μ x : Fin 2 → ℝ) (S : Matrix (Fin 2) (Fin 2) ℝ) :
+    spec_multivariate_normal2.denoteV [μ 0, μ 1, S 0 0, S 0 1, S 1 0, S 1 1] [x 0, x 1] =
+      multivariateNormalPdf μ S x := spec_multivariate_normal2_denotes μ x S
+
+/-! the denotation is not trivial: concrete values of printed terms -/
+example : spec_flip.denote [1 / 4] (boolPt true) = 1 / 4 := by
+  rw [C13_spec_flip_denotes]; simp [flipPmf]
+example : spec_exponential.denote [2] 0 = 2 := by
+  rw [C13_spec_exponential_denotes]; simp [exponentialPdf]
+example : spec_uniform.denote [1, 3] 2 = 1 / 2 := by
+  rw [C13_spec_uniform_denotes]; norm_num [uniformPdf]
+example : spec_uniform.denote [1, 3] 4 = 0 := by
+  rw [C13_spec_uniform_denotes]; norm_num [uniformPdf]
+example : spec_geometric.denote [1 / 2] ((2 : ℕ) : ℝ) = 1 / 8 := by
+  rw [C13_spec_geometric_denotes]; norm_num [geometricPmf]
+example : spec_binomial.denote [((3 : ℕ) : ℝ), 1 / 2] ((1 : ℕ) : ℝ) = 3 / 8 := by
+  rw [C13_spec_binomial_denotes]; norm_num [binomialPmf, Nat.choose]
+
+/-! consequently the PRINTED terms have total mass one (the statement the Python check relies on);
+spelled out for one entry of each kind — the others follow in the same way from
+`C13_spec_<name>_denotes` and `C13_<name>_normalised`. -/
+
+theorem C13_spec_gamma_normalised (a r : ℝ) (ha : 0 < a) (hr : 0 < r) :
+    ∫⁻ x, ENNReal.ofReal (spec_gamma.denote [a, r] x) = 1 := by
+  simp only [C13_spec_gamma_denotes]; exact gamma_normalised a r ha hr
+example : ∫⁻ x, ENNReal.ofReal (spec_gamma.denote [2, 3 / 2] x) = 1 :=
+  C13_spec_gamma_normalised 2 (3 / 2) (by norm_num) (by norm_num)
+
+theorem C13_spec_normal_normalised (μ σ : ℝ) (hσ : 0 < σ) :
+    ∫⁻ x, ENNReal.ofReal (spec_normal.denote [μ, σ] x) = 1 := by
+  simp only [C13_spec_normal_denotes]; exact normal_normalised μ σ hσ
+example : ∫⁻ x, ENNReal.ofReal (spec_normal.denote [-2, 3 / 10] x) = 1 :=
+  C13_spec_normal_normalised _ _ (by norm_num)
+
+theorem C13_spec_poisson_normalised (r : ℝ) :
+    HasSum (fun k : ℕ => spec_poisson.denote [r] (k : ℝ)) 1 := by
+  simp only [C13_spec_poisson_denotes]; exact poisson_normalised r
+
+theorem C13_spec_flip_normalised (p : ℝ) :
+    spec_flip.denote [p] (boolPt true) + spec_flip.denote [p] (boolPt false) = 1 := by
+  simp only [C13_spec_flip_denotes]; exact flip_normalised p
+
+end SpecTable
 
 end Genjax.DistSpec
